@@ -24,6 +24,9 @@ def main():
         if prop == "C06":
             import c06
             return c06.run(args)
+        if prop == "C04":
+            import c04
+            return c04.run(args)
         if prop == "C02":
             import c02
             return c02.run(args)
